@@ -22,6 +22,10 @@ COMPONENTS = [
      ['mpmc_ring_buffer.h'], 'OrdersMpmc', 'MCMpmcHB.tla',
      [('MC_hb1.cfg', 'MpmcRingBuffer 2P+2C cap 2: push, batch, pop, pop->OpResult', 'quick'),
       ('MC_hb2.cfg', 'MpmcRingBuffer 1P+2C: push/emplace, pop/pop_into, mixed', 'quick')]),
+    ('spsc', 'spec/spsc', ['Spsc.tla', 'SpscHB.tla', 'MCSpscHB.tla', 'MC_hb.cfg', 'MC_hb2.cfg'],
+     ['spsc_ring_buffer.h'], 'OrdersSpsc', 'MCSpscHB.tla',
+     [('MC_hb.cfg', 'SPSCRingBuffer: push/emplace/batch vs pop/pop_batch/pop->OpResult/pop_into, capacity 2', 'quick'),
+      ('MC_hb2.cfg', 'SPSCRingBuffer: 6 single pushes (all variants) vs 6 pops (all variants), slots reused', 'quick')]),
     ('event', 'spec/event', ['Event.tla', 'TimedWaitProps.tla', 'EventHB.tla', 'MCEventHB.tla', 'MC_hb.cfg'],
      ['latch.h', 'detail/completion_event_impl.h'], 'OrdersEvent', 'MCEventHB.tla',
      [('MC_hb.cfg', 'CompletionEvent notify/wait/waitFor and Latch count_down/arrive_and_wait/wait/try_wait publishing data', 'quick')]),
